@@ -27,8 +27,16 @@ const authKeyLen = 256
 
 // https://tlgrm.ru/docs/mtproto/auth_key
 // https://core.telegram.org/mtproto/auth_key
-func (m *MTProto) makeAuthKey() error { // nolint don't know how to make method smaller
+func (m *MTProto) makeAuthKey() (err error) { // nolint don't know how to make method smaller
 	m.serviceModeActivated = true
+	defer func() {
+		if err != nil {
+			// abandoned exchange: key and salt are set before the last checks (nonces and new_nonce_hash1 of
+			// dh_gen_ok), nothing of them may stay in the client when these checks or saving fail
+			m.authKey, m.authKeyHash, m.serverSalt = nil, nil, 0
+			m.encrypted = false
+		}
+	}()
 	nonceFirst := tl.RandomInt128()
 	res, err := m.reqPQ(nonceFirst)
 	if err != nil {
